@@ -11,6 +11,8 @@ SCHEMA = {
     "Sequence": {"_abs": "ref:AbsoluteSequence?", "_rel": "ref:RelativeSequence?", "_abs_stale": "bool", "_rel_stale": "bool"},
     "Bar": {"sequence": "ref:Sequence", "time_signature_numerator": "int", "time_signature_denominator": "int", "key_signature": "enum:Key?"},
     "MidiTrack": {"name": "int", "messages": "list:ref:MidiMessage"},
+    # ghost class for the (channel, [messages]) tuples returned by get_interleaved_message_pairings
+    "Pairing": {"g_channel": "int?", "g_msgs": "list:ref:Message", "__tuple__": "g_channel,g_msgs"},
     "MultiTrackLargeVocabularyNotelikeTokeniser": {
         "dictionary": "int", "inverse_dictionary": "int", "_dictionary_size": "int", "ppqn": "int", "step_sizes": "list:int", "note_values": "list:int",
         "num_tracks": "int", "pitch_range": "list:int", "time_signature_range": "list:int", "flag_running_values": "bool", "flag_fuse_track": "bool",
